@@ -873,11 +873,14 @@ func fsmPhase(c *ev.Ctx) {
 	type prop struct {
 		rs   []cmdlib.RootSpec
 		kind string
+		// never: the command presents an index from the future for one of its parts; that can never be the current one,
+		// so nothing may change
+		never bool
 	}
 	props := map[string]prop{}
 	var alpha []world.Op
 	add := func(op world.Op, rs []cmdlib.RootSpec, kind string) {
-		props[op.Name] = prop{rs, kind}
+		props[op.Name] = prop{rs: rs, kind: kind, never: strings.Contains(op.Name, "future")}
 		alpha = append(alpha, op)
 	}
 	r := func(specs ...cmdlib.RootSpec) []cmdlib.RootSpec { return specs }
@@ -897,8 +900,12 @@ func fsmPhase(c *ev.Ctx) {
 			}
 		}
 	}
-	for _, ic := range []cmdlib.IdxClass{cmdlib.IdxZero, cmdlib.IdxCurrent, cmdlib.IdxStale} {
+	for _, ic := range []cmdlib.IdxClass{cmdlib.IdxZero, cmdlib.IdxCurrent, cmdlib.IdxStale, cmdlib.IdxFuture} {
 		add(cmdlib.CASetConfig("48h", ic), nil, "set-config")
+	}
+	for _, p := range proposals[:3] {
+		add(cmdlib.CASetRootsAndConfig(p, cmdlib.IdxCurrent, "24h", cmdlib.IdxFuture), p, "set-roots-config")
+		add(cmdlib.CASetRootsAndConfig(p, cmdlib.IdxFuture, "24h", cmdlib.IdxCurrent), p, "set-roots-config")
 	}
 	add(cmdlib.CAIncrementSerial(), nil, "other")
 	add(cmdlib.CALeafIncrement(), nil, "other")
@@ -935,6 +942,10 @@ func fsmPhase(c *ev.Ctx) {
 			}
 			if len(roots) > 0 && n != 1 {
 				t.Violate(fmt.Sprintf("C12:fsm-root-set-has-%d-active-roots:%s", n, p.kind), fmt.Sprintf("after %v the root table holds %d roots, %d active", t.Hist, len(roots), n))
+			}
+			if p.never && (after.roots != before.roots || after.cfg != before.cfg) {
+				t.Violate("C12:fsm-applied-with-an-index-from-the-future:"+p.kind, fmt.Sprintf("%s presents an index that cannot be the current one, yet roots changed=%v config changed=%v", t.Op.Name, after.roots != before.roots, after.cfg != before.cfg))
+				return
 			}
 			if after.roots != before.roots {
 				if p.rs == nil {
